@@ -1342,4 +1342,220 @@ theorem gen_correct_refs_partial (sc : Scope) (env : Spec.Eval.Env) (jenv : JEnv
   | .list _ _, j, jv, h, _ => by simp [toAst] at h
   | .map _ _, j, jv, h, _ => by simp [toAst] at h
 
+/-! ## establishing and maintaining the environment relation -/
+
+/-- template parameters: before any `let` / loop, with `opt_data` the JSON image of the data the
+    template was entered with -/
+theorem envRel_params (sc : Scope) (env : Spec.Eval.Env) (jenv : JEnv)
+    (hsc : ∀ k, sc.lookup k = none) (hdata : toJsKvs env.vars = some jenv.optData) : EnvRel sc env jenv := by
+  intro k _ _
+  rw [hsc k]
+  exact toJsKvs_find env.vars jenv.optData k hdata
+
+/-- binding one Soy variable `x` to the JavaScript local `g` (what `{let}`, `{foreach}` and `{for}`
+    do): the relation is kept, provided `g` is FRESH — not the local of any other visible variable -/
+theorem envRel_bind (sc sc' : Scope) (env : Spec.Eval.Env) (jenv : JEnv) (x g : Bytes) (v : Val) (jv : JVal)
+    (hrel : EnvRel sc env jenv) (hv : toJsV v = some jv)
+    (hx : sc'.lookup x = some g)
+    (hother : ∀ k, k ≠ x → k.contains 36 = false → sc'.lookup k = sc.lookup k)
+    (hfresh : ∀ k g', k ≠ x → k.contains 36 = false → sc.lookup k = some g' → g' ≠ g) :
+    EnvRel sc' (env.bind x v) { jenv with locals := (g, jv) :: jenv.locals } := by
+  intro k hk hd
+  by_cases hkx : k = x
+  · subst hkx
+    rw [hx]
+    refine ⟨(g, jv), by simp, ?_⟩
+    simp [Spec.Eval.Env.bind, Spec.Eval.Env.lookup, Spec.Eval.find, hv]
+  · rw [hother k hkx hd]
+    have hr := hrel k hk hd
+    have hlook : (env.bind x v).lookup k = env.lookup k := by
+      have : (x == k) = false := by simpa using fun e : x = k => hkx e.symm
+      simp [Spec.Eval.Env.bind, Spec.Eval.Env.lookup, Spec.Eval.find, this]
+    rw [hlook]
+    cases hl : sc.lookup k with
+    | none => simp only [hl] at hr ⊢; exact hr
+    | some g' =>
+      simp only [hl] at hr ⊢
+      obtain ⟨kv, hfind, hkv⟩ := hr
+      have hne : g' ≠ g := hfresh k g' hkx hd hl
+      refine ⟨kv, ?_, hkv⟩
+      have : (g == g') = false := by simpa using fun e : g = g' => hne e.symm
+      simp only [List.find?_cons, this]
+      exact hfind
+
+/-! ### freshness from the shape of generated names (scope.go `jsname`, after 969339a) -/
+
+/-- everything before the first "$" -/
+def beforeDollar : Bytes → Bytes
+  | [] => []
+  | c :: r => if c == 36 then [] else c :: beforeDollar r
+
+theorem beforeDollar_append (k rest : Bytes) (h : k.contains 36 = false) : beforeDollar (k ++ 36 :: rest) = k := by
+  induction k with
+  | nil => simp [beforeDollar]
+  | cons c r ih =>
+    have h' : ((36 : UInt8) == c || r.contains 36) = false := by simpa [List.contains_cons] using h
+    have hc1 : ((36 : UInt8) == c) = false := by
+      cases hh : ((36 : UInt8) == c) with
+      | false => rfl
+      | true => simp [hh] at h'
+    have hc2 : r.contains 36 = false := by
+      cases hh : r.contains 36 with
+      | false => rfl
+      | true =>
+        have hm : (36 : UInt8) ∈ r := by simpa using hh
+        have : ¬ (36 : UInt8) ∈ r := by
+          have := h'
+          simp at this
+          exact this.2
+        exact absurd hm this
+    have hc : (c == 36) = false := by
+      cases hh : (c == 36) with
+      | false => rfl
+      | true =>
+        have : c = 36 := by simpa using hh
+        subst this
+        simp at hc1
+    show beforeDollar (c :: (r ++ 36 :: rest)) = c :: r
+    unfold beforeDollar
+    rw [hc, ih hc2]
+    rfl
+
+/-- a generated name determines the Soy name it was generated for -/
+theorem jsname_inj {k k' use use' : Bytes} {m m' : Nat} (hk : k.contains 36 = false) (hk' : k'.contains 36 = false)
+    (h : Scope.jsname k use m = Scope.jsname k' use' m') : k = k' := by
+  have h1 := beforeDollar_append k (use ++ F64.natDigits m) hk
+  have h2 := beforeDollar_append k' (use' ++ F64.natDigits m') hk'
+  have h' : k ++ 36 :: (use ++ F64.natDigits m) = k' ++ 36 :: (use' ++ F64.natDigits m') := by
+    simpa [Scope.jsname, List.append_assoc] using h
+  rw [← h1, ← h2, h']
+
+/-- the generator's scope maps every Soy name to a name generated FOR IT -/
+def ScopeShape (sc : Scope) : Prop :=
+  ∀ k g, k.contains 36 = false → sc.lookup k = some g → ∃ use m, g = Scope.jsname k use m
+
+/-- FRESHNESS: under `ScopeShape`, the local generated for `x` is not the local of another variable -/
+theorem fresh_of_shape (sc : Scope) (hs : ScopeShape sc) (x use : Bytes) (n : Nat) (hx : x.contains 36 = false) :
+    ∀ k g', k ≠ x → k.contains 36 = false → sc.lookup k = some g' → g' ≠ Scope.jsname x use n := by
+  intro k g' hkx hk hl e
+  obtain ⟨u, m, rfl⟩ := hs k g' hk hl
+  exact hkx (jsname_inj hk hx e)
+
+theorem frameGet_frameSet : ∀ (f : Frame) (k v k' : Bytes),
+    frameGet? (frameSet f k v) k' = if k == k' then some v else frameGet? f k'
+  | [], k, v, k' => by simp [frameSet, frameGet?]
+  | (a, b) :: r, k, v, k' => by
+    unfold frameSet
+    by_cases hak : (a == k) = true
+    · have : a = k := by simpa using hak
+      subst this
+      simp only [hak, if_true, frameGet?]
+      by_cases hk' : (a == k') = true <;> simp [hk']
+    · simp only [hak, Bool.false_eq_true, if_false, frameGet?, frameGet_frameSet r k v k']
+      by_cases hkk : (k == k') = true
+      · have : k = k' := by simpa using hkk
+        subst this
+        have : (a == k) = false := by simpa using hak
+        simp [this]
+      · simp [hkk]
+
+/-- `{let $x: …}`: what `makevar` does to the scope (the Write loop always has a frame open) -/
+theorem makevar_lookup (sc : Scope) (f : Frame) (st : List Frame) (hst : sc.stack = f :: st) (x k : Bytes) :
+    (sc.makevar x).2.lookup k = if x == k then some (sc.makevar x).1 else sc.lookup k := by
+  simp only [Scope.makevar, Scope.lookup, hst, Scope.setTop, Scope.lookupIn, frameGet_frameSet]
+  by_cases h : (x == k) = true
+  · simp [h]
+  · simp [h]
+
+/-- the relation is kept by `{let $x: e /}` (value `v`, its image assigned to the generated local) -/
+theorem envRel_let (sc : Scope) (env : Spec.Eval.Env) (jenv : JEnv) (f : Frame) (st : List Frame)
+    (hst : sc.stack = f :: st) (hs : ScopeShape sc) (x : Bytes) (hx : x.contains 36 = false)
+    (v : Val) (jv : JVal) (hrel : EnvRel sc env jenv) (hv : toJsV v = some jv) :
+    EnvRel (sc.makevar x).2 (env.bind x v) { jenv with locals := ((sc.makevar x).1, jv) :: jenv.locals } := by
+  refine envRel_bind sc _ env jenv x _ v jv hrel hv ?_ ?_ ?_
+  · rw [makevar_lookup sc f st hst]; simp
+  · intro k hk _
+    rw [makevar_lookup sc f st hst]
+    have : (x == k) = false := by simpa using fun e : x = k => hk e.symm
+    simp [this]
+  · exact fresh_of_shape sc hs x [] (sc.n + 1) hx
+
+/-- … and `makevar` keeps the shape of the scope -/
+theorem makevar_shape (sc : Scope) (f : Frame) (st : List Frame) (hst : sc.stack = f :: st) (hs : ScopeShape sc)
+    (x : Bytes) : ScopeShape (sc.makevar x).2 := by
+  intro k g hk hl
+  rw [makevar_lookup sc f st hst] at hl
+  by_cases h : (x == k) = true
+  · have : x = k := by simpa using h
+    subst this
+    simp only [h, if_true, Option.some.injEq] at hl
+    exact ⟨[], sc.n + 1, hl.symm⟩
+  · simp only [h, Bool.false_eq_true, if_false] at hl
+    exact hs k g hk hl
+
+/-- `{foreach $x in …}`: the loop frame binds `x` to its generated local -/
+theorem pushForEach_lookup (sc : Scope) (x k : Bytes) (hk : k.contains 36 = false) :
+    (sc.pushForEach x).2.lookup k = if x == k then some (sc.pushForEach x).1.1 else sc.lookup k := by
+  have hne : ∀ (p : Bytes), ((p ++ x) == k) = false ∨ True := fun _ => Or.inr trivial
+  have hlim : ((Scope.kLimit ++ x) == k) = false := by
+    have : (Scope.kLimit ++ x).contains 36 = true := by simp [Scope.kLimit]
+    cases h : ((Scope.kLimit ++ x) == k) with
+    | false => rfl
+    | true => have := beq_true_eq h; subst this; simp_all
+  have hidx : ((Scope.kIndex ++ x) == k) = false := by
+    have : (Scope.kIndex ++ x).contains 36 = true := by simp [Scope.kIndex]
+    cases h : ((Scope.kIndex ++ x) == k) with
+    | false => rfl
+    | true => have := beq_true_eq h; subst this; simp_all
+  simp only [Scope.pushForEach, Scope.lookup, Scope.lookupIn, frameGet_frameSet, hlim, hidx, Bool.false_eq_true, if_false]
+  by_cases h : (x == k) = true
+  · simp [h]
+  · simp [h, frameGet?]
+
+theorem envRel_foreach (sc : Scope) (env : Spec.Eval.Env) (jenv : JEnv) (hs : ScopeShape sc) (x : Bytes)
+    (hx : x.contains 36 = false) (v : Val) (jv : JVal) (hrel : EnvRel sc env jenv) (hv : toJsV v = some jv) :
+    EnvRel (sc.pushForEach x).2 (env.bind x v) { jenv with locals := ((sc.pushForEach x).1.1, jv) :: jenv.locals } := by
+  refine envRel_bind sc _ env jenv x _ v jv hrel hv ?_ ?_ ?_
+  · rw [pushForEach_lookup sc x x hx]; simp
+  · intro k hk hd
+    rw [pushForEach_lookup sc x k hd]
+    have : (x == k) = false := by simpa using fun e : x = k => hk e.symm
+    simp [this]
+  · exact fresh_of_shape sc hs x [] (sc.n + 1) hx
+
+/-! ## non-vacuity -/
+
+/-- `$x.a + length($l)` with `x` a let variable (local `x$1`) and `l` a parameter -/
+def sampleScope : Scope := (Scope.makevar ⟨[[]], 0⟩ b!"x").2
+def sampleExpr : Expr :=
+  .bin .add 0 (.dataRef 0 b!"x" (.cons (.key 0 false b!"a") .nil)) (.func 0 b!"length" (.cons (.dataRef 0 b!"l" .nil) .nil))
+def sampleJEnv : JEnv :=
+  { optData := [(b!"l", .arr [.num 1, .num 2])], ijData := none, locals := [(b!"x$1", .obj [(b!"a", .num 40)])] }
+
+example : (toAst sampleScope sampleExpr).map render =
+    some (render (.bin .add (.member (.local b!"x$1") b!"a") (.call1 .length (.optData b!"l")))) := rfl
+
+example : (toAst sampleScope sampleExpr).map (eval sampleJEnv) = some (.val (.num 42)) := rfl
+
+/-- the null-safe form and its value on a null base -/
+example : (toAst ⟨[[]], 0⟩ (.dataRef 0 b!"p" (.cons (.key 0 true b!"a") .nil))).map
+    (eval { optData := [(b!"p", .null)], ijData := none, locals := [] }) = some (.val .null) := rfl
+
+/-! ## what remains unproved (C04, expression and command level)
+
+  * `$ij` references, accesses by a computed key `$x[$e]`, a null-safe access that is not the last
+    one (`$x?.a.b`: the specification leaves what follows a null-safe hit open), negative indices;
+  * floats (the JavaScript value universe here has exact integers only): `round(x, n)`, `floor` /
+    `ceiling` / `round` / `min` / `max` of floats, float arithmetic and printing;
+  * the other functions (`keys`, `augmentMap`, `strContains`, `range`, `randomInt`, the bidi
+    functions), `isFirst` / `isLast` / `index` (they need the loop index / limit locals in the relation),
+    list and map literals, globals;
+  * `range`-loops in `envRel_*` (only `{let}` and `{foreach}` are instantiated; `{for … in range}` is
+    the same `envRel_bind` with `pushForRange`), let-CONTENT variables (their value is the text the
+    block rendered: command level);
+  * the invariant `ScopeShape` is shown to be kept by `makevar` only (`makevar_shape`); that every
+    scope the generator builds while walking a well-named file satisfies it is not proved;
+  * every command (control flow, calls, messages) and the parse of the emitted text: decided by
+    execution (C04exec), not by a theorem. -/
+
 end SoyVerif.Props.C04c
